@@ -148,7 +148,12 @@ func worker(t *testing.T) {
 				fmt.Fprintf(journal, "%s %d\n", ph.Name, i)
 			}
 			tape := phaseTape(p, ph, base, i)
+			wd := time.AfterFunc(60*time.Second, func() {
+				fmt.Fprintf(os.Stderr, "WATCHDOG: run %s/%d did not finish within 60 s of wall time (a simulated run takes milliseconds)\n", ph.Name, i)
+				os.Exit(5)
+			})
 			out := kit.ExecOnce(t, p, tape, tier)
+			wd.Stop()
 			res.Evaluations++
 			res.PerPhase[ph.Name]++
 			res.SimSteps += uint64(out.SimSteps)
@@ -629,7 +634,7 @@ func rerunDead(self, id, tier string, base uint64, where, verif, head string) st
 
 func firstLine(b []byte) string {
 	for _, l := range strings.Split(string(b), "\n") {
-		if strings.HasPrefix(l, "fatal error") || strings.HasPrefix(l, "panic") || strings.Contains(l, "stack overflow") {
+		if strings.HasPrefix(l, "fatal error") || strings.HasPrefix(l, "panic") || strings.Contains(l, "stack overflow") || strings.HasPrefix(l, "WATCHDOG") {
 			return l
 		}
 	}
